@@ -2,7 +2,7 @@
    (harness/cmd/h_tcp2), in lock step with the closed-system model of Proofs/TcpNetP.v
    ([sys_step]: a network move hands an endpoint a copy of the k-th frame the other one has emitted
    so far), in the incremental form [Model.TcpSys.isys_step] (proved equal to [sys_run] in
-   Proofs/TcpSysLiveP.v).
+   Proofs/TcpSysLiveBaseP.v).
    A case = the handshake's parameters, both initial snapshots, and for every move: the move, both
    snapshots after it ([None] = the driver compared the snapshot field by field with the previous
    one of that endpoint and found it identical), the frames either side emitted in that move, and
